@@ -39,6 +39,12 @@ func cmdSweep(args []string) {
 			continue
 		}
 		sp := specs.Funcs[name]
+		if i := strings.Index(name, "@"); i > 0 && sp == nil {
+			// implementer check: <iface key>@<type or closure>
+			if isp := specs.Ifaces[name[:i]]; isp != nil {
+				sp = ImplSpec(isp, name[:i], name[i+1:])
+			}
+		}
 		if sp == nil {
 			sp = &FuncSpec{Name: name, ModAll: true, Verify: true}
 		}
